@@ -7,7 +7,7 @@ from vlib.c01_ast import E, S, zero_val, e_children
 
 
 def _bodies(prog):
-    for f in prog.ints + prog.exts:
+    for f in prog.ints + prog.exts + ([prog.ctor] if getattr(prog, "ctor", None) is not None else []):
         yield f, f.body
 
 
@@ -93,7 +93,7 @@ def candidates_expr(prog):
             if c.ty == e.ty:
                 repls.append("child")
                 break
-        if e.ty[0] in ("int", "bool", "addr"):
+        if e.ty[0] in ("int", "bool", "addr", "flag"):
             repls.append("zero")
             if e.ty[0] == "int":
                 repls.append("one")
@@ -141,14 +141,14 @@ def _all_exprs(prog):
 
 def candidates_fun(prog, calls):
     """(program, calls) with one uncalled external function or one unreferenced internal function removed"""
-    used = {c.fidx for c in calls}
+    used = {c.fidx for c in calls if not getattr(c, "deploy", False)}
     for k in range(len(prog.exts) - 1, -1, -1):
         if k not in used and len(prog.exts) > 1:
             p2 = copy.deepcopy(prog)
             del p2.exts[k]
             cs2 = copy.deepcopy(calls)
             for c in cs2:
-                if c.fidx > k:
+                if c.fidx > k and not getattr(c, "deploy", False):
                     c.fidx -= 1
             yield p2, cs2
     referenced = {e.id for e in _all_exprs(prog) if e.k == "call"}
@@ -185,12 +185,13 @@ def shrink(prog, calls, cfg, what, budget_s=60, log=None):
     if best is None:
         return prog, calls, None
     # 1. calls: cut after the failing call, then drop earlier ones
+    first = 1 if (calls and getattr(calls[0], "deploy", False)) else 0     # the constructor call stays
     if "call" in best:
         cs = calls[:best["call"] + 1]
         d = still(prog, cs)
         if d:
             calls, best = cs, d
-    i = 0
+    i = first
     while i < len(calls) - 1 and time.time() - t0 < budget_s:
         cs = calls[:i] + calls[i + 1:]
         d = still(prog, cs)
@@ -224,6 +225,8 @@ def shrink(prog, calls, cfg, what, budget_s=60, log=None):
     # 4. arguments
     for ci, c in enumerate(calls):
         for ai, a in enumerate(c.args):
+            if getattr(c, "given", None) is not None and ai >= c.given:
+                continue      # an omitted argument: its value is the function's default
             if isinstance(a, int) and a not in (0, 1) and time.time() - t0 < budget_s + 10:
                 for nv in (0, 1):
                     cs = copy.deepcopy(calls)
